@@ -264,6 +264,10 @@ func c10Scenario(cfg c10Cfg, seq []int) *Scenario {
 					// signal like any other, and nothing of the congestion state reacted to it
 					m.Failf("cwnd.rack-loss", "%s: %d chunk(s) declared lost by the RACK detector and retransmitted, yet no congestion response: cwnd %d -> %d, ssthresh %d unchanged, not in fast recovery, no T3 expiry", where, rl.marks-marks0, before.cwnd, after.cwnd, after.ssthresh)
 				}
+				if rl.marks > marks0 && after.t3 == before.t3 && before.inFR && !modelFR && before.cwnd > floor &&
+					after.cwnd >= before.cwnd && after.ssthresh == before.ssthresh && before.exit == after.exit {
+					m.Failf("cwnd.rack-loss", "%s: %d chunk(s) declared lost by the RACK detector, no congestion response (cwnd %d -> %d, ssthresh %d unchanged): the endpoint still believes it is in the recovery of an earlier episode (exit point %d) although everything sent before that episode began has been acknowledged (cumulative ack %d)", where, rl.marks-marks0, before.cwnd, after.cwnd, after.ssthresh, after.exit, a.cumulativeTSNAckPoint)
+				}
 				if rl.marks > marks0 && !before.inFR && after.inFR && !modelFR {
 					// recovery episode opened by the time-based detector
 					modelFR, modelExit = true, a.myNextTSN-1
@@ -306,6 +310,11 @@ func seqNames(seq []int) []string {
 }
 
 func propC10(j *Job) {
+	// a T3-rtx expiry is a loss signal: it is acted upon (window collapsed, retransmission) also
+	// when a SACK without cumulative progress is handled in the same instant (scenario of C19)
+	for _, mode := range stdModes()[:2] {
+		j.Explore(fmt.Sprintf("VE/%s", mode.Name), validExpiryScenario(withBase(mode.A, 1191, 0xFFFFFFFC, 4000), withBase(mode.B, 1191, 3, 4000)), Budget{D: 1}, nil)
+	}
 	depth := 4
 	if j.Thorough() {
 		depth = 5
@@ -337,6 +346,9 @@ func propC10(j *Job) {
 	}
 	grown = append(grown, evW12, evSackGap, evSackGap, evSackGap, evW1, evSackAll, evW12, evSackGap, evSackGap)
 	bases = append(bases, grown)
+	// a loss declared by the time-based detector and repaired (two writes at different times, the
+	// second acknowledged alone, then everything): what follows starts from a finished episode
+	bases = append(bases, []int{evW1, evWP, evSackGap, evSackAll})
 	for ci, cfg := range cfgs {
 		for bi, base := range bases {
 			d := depth - 1
